@@ -604,6 +604,40 @@ fn dispatch<C: CI>(op: Op, a: &[&[u8]]) -> R<Vec<Vec<u8>>> {
             agg.verify(&data).map_err(e)?;
             Ok(vec![])
         }
+        Op::AggVerifyTrait => {
+            // the trait-level entry points take ANY iterator: exact-size, filtered (lower bound 0), generated, chained, flattened
+            let kind = *arg(a, 0)?.first().ok_or("kind")?;
+            let agg = AggregateSignature::<C>::try_from(arg(a, 1)?).map_err(e)?;
+            let mut data: Vec<(<C as Pairing>::PublicKey, Vec<u8>)> = Vec::new();
+            let mut i = 2;
+            while i + 1 < a.len() {
+                data.push((PublicKey::<C>::try_from(a[i]).map_err(e)?.0, a[i + 1].to_vec()));
+                i += 2;
+            }
+            fn run<C: CI, P: Iterator<Item = (<C as Pairing>::PublicKey, Vec<u8>)>>(agg: &AggregateSignature<C>, it: P) -> BlsResult<()> {
+                match agg {
+                    AggregateSignature::Basic(s) => <C as BlsSignatureBasic>::aggregate_verify(it, *s),
+                    AggregateSignature::MessageAugmentation(s) => <C as BlsSignatureMessageAugmentation>::aggregate_verify(it, *s),
+                    AggregateSignature::ProofOfPossession(s) => <C as BlsSignaturePop>::aggregate_verify(it, *s),
+                }
+            }
+            let half = data.len() / 2;
+            match kind {
+                0 => run::<C, _>(&agg, data.into_iter()),
+                1 => run::<C, _>(&agg, data.into_iter().filter(|_| true)),
+                2 => {
+                    let mut it = data.into_iter();
+                    run::<C, _>(&agg, std::iter::from_fn(move || it.next()))
+                }
+                3 => {
+                    let tail = data.split_off(half);
+                    run::<C, _>(&agg, data.into_iter().chain(tail))
+                }
+                _ => run::<C, _>(&agg, data.into_iter().flat_map(|e| std::iter::once(e))),
+            }
+            .map_err(e)?;
+            Ok(vec![])
+        }
         Op::MultiSig => {
             let sigs = many(a, 0, |b| Signature::<C>::try_from(b).map_err(e))?;
             Ok(vec![Vec::from(&MultiSignature::<C>::from_signatures(&sigs).map_err(e)?)])
